@@ -22,6 +22,10 @@ import contextvars
 import functools
 import tempfile
 
+# int fields of Builder that the translator classified as "number of run_promoted_hash_jobs calls in
+# progress" (set by p_c12.generate); the recorder compares them with its own count
+WAITING_ATTRS: list = []
+
 _AMEND_JOB = contextvars.ContextVar("c12_amend_job", default=None)
 _IN_PROMOTED = contextvars.ContextVar("c12_in_promoted", default=False)
 
@@ -36,6 +40,7 @@ class Recorder:
         self.max_promoted = 0
         self.njob = None
         self.hash_ids = {}
+        self.counter_mismatch = None   # (event index, attr, value, own count)
 
     def builder(self):
         from . import e3
@@ -51,6 +56,11 @@ class Recorder:
             nstep = sum(1 for j in b.running_tasks.values() if not isinstance(j, HashJob))
             self.max_step_tasks = max(self.max_step_tasks, nstep)
             self.max_tracked = max(self.max_tracked, nr)
+            if kind not in ("amendbegin", "amendend") and self.counter_mismatch is None:
+                for attr in WAITING_ATTRS:
+                    val = getattr(b, attr, None)
+                    if val != self.amending:
+                        self.counter_mismatch = (len(self.events), attr, val, self.amending)
         self.events.append((kind, arg, nr, self.amending))
 
     def hid(self, job_i):
